@@ -1,4 +1,5 @@
 import WindVerif.Spec.Pool
+import WindVerif.Proofs.PoolMidAux
 /-!
 Auxiliary development for `PoolSafe.lean`, part 1: the invariant `SafeInv` re-expressed over plain values (`SafeV`) so that
 the preservation lemmas can be stated and proved without the 36-field state record, and the list lemmas about the
